@@ -99,4 +99,9 @@ def rules(t):
     out.append(r)
     out.append(shared.ack_once(t, "C01.g"))
     out.append(shared.seq_unique(t, "C01.h"))
+    import rules.C03 as C03
+    rr = C03.length_from_last_slice(t); rr.id = "C01.i"
+    for v in rr.violations: v.rule = "C01.i"; v.key = "C01.i|" + v.key.split("|", 1)[1]
+    out.append(rr)
+    out.append(shared.range_algebra(t, "C01.j"))
     return out
